@@ -110,6 +110,8 @@ Section JsFloat.
 Variable js_flt : Type.
 Variable js_fprint : js_flt -> list Z.               (* dump_float *)
 Variable js_fparse : list Z -> option js_flt.        (* strtod; None = not finite ("number overflow") *)
+Variable js_lim : option Z.                          (* l_MaxJsonNestingDepth of lib/base/json.cpp (regenerated source fact
+                                                        Facts_c20.f_js_max_depth); None = no nesting limit in the source *)
 
 Inductive js_value :=
 | JsNull
@@ -371,7 +373,11 @@ Fixpoint js_obj_set (k : list Z) (v : js_value) (l : list (list Z * js_value)) :
       else (k, v) :: t
   end.
 
-Fixpoint js_pval (fuel : nat) (ts : list js_tok) : option (js_value * list js_tok) :=
+(* JsonSax::start_object / start_array: m_CurrentSubtree.size() >= limit -> throw; [d] = open containers *)
+Definition js_depth_ok (d : Z) : bool :=
+  match js_lim with Some m => d <? m | None => true end.
+
+Fixpoint js_pval (fuel : nat) (d : Z) (ts : list js_tok) : option (js_value * list js_tok) :=
   match fuel with
   | O => None
   | S f =>
@@ -382,31 +388,41 @@ Fixpoint js_pval (fuel : nat) (ts : list js_tok) : option (js_value * list js_to
       | JtInt z :: r => Some (JsNum z, r)
       | JtFlt x :: r => Some (JsFlt x, r)
       | JtStr s :: r => Some (JsStr s, r)
-      | JtLBrack :: JtRBrack :: r => Some (JsArr [], r)
-      | JtLBrack :: r => js_parr f r []
-      | JtLBrace :: JtRBrace :: r => Some (JsObj [], r)
-      | JtLBrace :: r => js_pobj f r []
+      | JtLBrack :: r =>
+          if js_depth_ok d then
+            match r with
+            | JtRBrack :: r' => Some (JsArr [], r')
+            | _ => js_parr f (d + 1) r []
+            end
+          else None
+      | JtLBrace :: r =>
+          if js_depth_ok d then
+            match r with
+            | JtRBrace :: r' => Some (JsObj [], r')
+            | _ => js_pobj f (d + 1) r []
+            end
+          else None
       | _ => None
       end
   end
-with js_parr (fuel : nat) (ts : list js_tok) (acc : list js_value) : option (js_value * list js_tok) :=
+with js_parr (fuel : nat) (d : Z) (ts : list js_tok) (acc : list js_value) : option (js_value * list js_tok) :=
   match fuel with
   | O => None
   | S f =>
-      match js_pval f ts with
-      | Some (v, JtComma :: r) => js_parr f r (acc ++ [v])
+      match js_pval f d ts with
+      | Some (v, JtComma :: r) => js_parr f d r (acc ++ [v])
       | Some (v, JtRBrack :: r) => Some (JsArr (acc ++ [v]), r)
       | _ => None
       end
   end
-with js_pobj (fuel : nat) (ts : list js_tok) (acc : list (list Z * js_value)) : option (js_value * list js_tok) :=
+with js_pobj (fuel : nat) (d : Z) (ts : list js_tok) (acc : list (list Z * js_value)) : option (js_value * list js_tok) :=
   match fuel with
   | O => None
   | S f =>
       match ts with
       | JtStr k :: JtColon :: r =>
-          match js_pval f r with
-          | Some (v, JtComma :: r') => js_pobj f r' (js_obj_set k v acc)
+          match js_pval f d r with
+          | Some (v, JtComma :: r') => js_pobj f d r' (js_obj_set k v acc)
           | Some (v, JtRBrace :: r') => Some (JsObj (js_obj_set k v acc), r')
           | _ => None
           end
@@ -429,7 +445,7 @@ Definition js_decode (input : list Z) : option js_value :=
       match js_lex (S (length l)) l with
       | None => None
       | Some ts =>
-          match js_pval (S (2 * length ts)) ts with
+          match js_pval (S (2 * length ts)) 0 ts with
           | Some (v, []) => Some v
           | _ => None
           end
